@@ -120,3 +120,62 @@ func HarnessC10() {
 	}
 	verif.Assert("C10-nothing-outside-target-touched", envChangedOutside(wTarget) == "")
 }
+
+// HarnessC10Rules: ignore-driven deletion interleaved with link validation. The fetched package
+// has a rule file excluding *.log and a directory c/ holding a.log, m.log, a file k and a symlink
+// z whose target is symbolic; lexical walk order puts the excluded entries before the others.
+type c10RulesFetcher struct{}
+
+func (c10RulesFetcher) FetchSourcePackage(ctx context.Context, sourceType string, u *url.URL, targetDir string) (FetchSourcePackageResponse, error) {
+	envWriteFile(targetDir+"/.terraformignore", 0644, 1000, "*.log\n")
+	envMkdir(targetDir+"/c", 0755, 1000)
+	envWriteFile(targetDir+"/c/a.log", 0644, 1000, "A")
+	envWriteFile(targetDir+"/c/k", 0644, 1000, "K")
+	envWriteFile(targetDir+"/c/m.log", 0644, 1000, "M")
+	t := c10SymPath("target", verif.Param("sLink", 3))
+	envSymlink(targetDir+"/c/z", t, 1000)
+	real := envRealPath(targetDir + "/c/z")
+	c10Bad = real == "" || !(real == targetDir || wHasPrefix(real, targetDir+"/"))
+	if !c10Bad {
+		if k := envLstatKind(real); k != envFile && k != envDir {
+			c10Bad = true
+		}
+		if wHasPrefix(real, targetDir+"/c/a.log") || wHasPrefix(real, targetDir+"/c/m.log") {
+			c10Bad = true // leads to something the rules remove: dangling in the finished package
+		}
+	}
+	return FetchSourcePackageResponse{}, nil
+}
+
+func HarnessC10Rules() {
+	wReset(1, 0, 0)
+	envWriteFile("/w/secret", 0600, 100, "X")
+	c10Bad = false
+	b, err := NewBuilder(wTarget, c10RulesFetcher{}, wRegistry{})
+	verif.Assume(err == nil)
+	ctx := wCtx{wTracer()}
+	envBaseline()
+	src := wSource(wNode{0, 0})
+	diags := b.AddRemoteSource(ctx, src, wFinder{wNode{0, 0}, 0})
+	if diags.HasErrors() {
+		verif.Reach("build-failed")
+		return
+	}
+	bundle, err := b.Close()
+	verif.Assert("close-succeeds", err == nil)
+	if err != nil {
+		return
+	}
+	verif.Reach("built")
+	verif.Assert("C10-bad-package-makes-the-build-fail", !c10Bad)
+	dir, _ := bundle.LocalPathForRemoteSource(src)
+	for _, n := range envSnapshot(dir) {
+		verif.Assert("C10-everything-excluded-is-removed", !(len(n.Path) > 4 && n.Path[len(n.Path)-4:] == ".log"))
+		if n.Kind == envLink {
+			verif.Reach("link-kept")
+			real := envRealPath(dir + "/" + n.Path)
+			verif.Assert("C10-link-resolves-inside-its-package", real != "" && (real == dir || wHasPrefix(real, dir+"/")))
+		}
+	}
+	verif.Assert("C10-nothing-outside-target-touched", envChangedOutside(wTarget) == "")
+}
